@@ -1,5 +1,5 @@
 import LaytheVerif.Gen.Tokens
-import LaytheVerif.Gen.Limits
+import LaytheVerif.Gen.FrontLimits
 /-!
 # Front-end models for C15 (core Lean only)
 
